@@ -51,6 +51,9 @@ class World:
             self.params.append(p)
         self.module = m
         self.opt = ns.optim.SGD([p for p, l in zip(self.params, LEAVES) if l["req"]], lr=0.1)
+        # optimizers with a zero learning rate: a step is neither a backward call nor a reset, so .grad must survive it
+        self.opt0 = [ns.optim.SGD([p for p, l in zip(self.params, LEAVES) if l["req"]], lr=0.0, momentum=0.9, nesterov=True),
+                     ns.optim.Adam([p for p, l in zip(self.params, LEAVES) if l["req"]], lr=0.0)]
         self.tvals = {i: p for i, p in enumerate(self.params)}      # value id -> library Tensor
         self.ledger = [None] * len(LEAVES)
         self.n_exec = 0                                              # number of instructions already executed in the library
@@ -265,6 +268,12 @@ def run_history(ns, mon, case):
                     w.retain_ctx.__exit__(None, None, None)
                     w.retain_ctx = None
                     w.events.append(["retain_grads_exit"]); kinds.append("ctx-off")
+            elif r < 0.86:
+                o = w.opt0[int(rng.integers(2))]
+                o.step()
+                w.events.append(["optimizer_step_lr0", type(o).__name__])
+                kinds.append("step0")
+                compare_ledger("optimizer-step")
             else:
                 k = ["zero_tensor", "zero_module", "zero_optimizer"][int(rng.integers(3))]
                 reset(k)
